@@ -245,7 +245,9 @@ pub fn run(data: &[u8], ctx: &mut Ctx) -> Outcome {
     {
         let els = m.elements();
         let pick = els[src.below(els.len())];
-        if !pick.is_obscured() && pick.digest() != m.digest() {
+        // (skipped when an already obscured element shares the digest: the walk below could not tell the
+        // element made by this action from the one that was there before)
+        if !pick.is_obscured() && pick.digest() != m.digest() && !els.iter().any(|x| x.is_obscured() && x.digest() == pick.digest()) {
             let pd = pick.digest();
             let t: std::collections::BTreeSet<crate::model::D32> = [pd].into_iter().collect();
             let r = nopanic!(ctx, e.elide_removing_set_with_action(&bridge::to_hashset(&t), &ObscureAction::Encrypt(key.clone())), "inner", "C08/inner");
@@ -306,6 +308,75 @@ pub fn run(data: &[u8], ctx: &mut Ctx) -> Outcome {
             check!(ctx, r.is_err(), "misdeclared", &fkey, "decrypt() accepted a mis-declared ciphertext ({})", name);
             ctx.nontrivial = true;
         }
+    }
+    // --- malformed digest declaration by a key holder: the additional data is there but is not the CBOR
+    // of a digest. Nothing the library hands out as an envelope may then decrypt to content (there is no
+    // digest the content could be bound to), and no step may panic. (drawn after everything older)
+    if src.chance(120) {
+        let dbytes: Vec<u8> = e.digest().data().to_vec();
+        let tagged_digest = e.digest().into_owned().tagged_cbor().to_cbor_data();
+        let which = src.below(7);
+        let aad: Vec<u8> = match which {
+            0 => {
+                // the digest bytes as a CBOR byte string without the digest tag
+                let mut v = vec![0x58, 0x20];
+                v.extend(&dbytes);
+                v
+            }
+            1 => dbytes.clone(), // raw bytes, not CBOR at all
+            2 => {
+                // right tag, 31 bytes
+                let mut v = tagged_digest.clone();
+                let l = v.len();
+                v[l - 33] = 0x1f; // 0x58 0x20 -> 0x58 0x1f
+                v.truncate(l - 1);
+                v
+            }
+            3 => {
+                // well-formed digest followed by one more byte
+                let mut v = tagged_digest.clone();
+                v.push(src.byte());
+                v
+            }
+            4 => {
+                // another tag around 32 bytes
+                let mut v = vec![0xd8, 0x25, 0x58, 0x20];
+                v.extend(&dbytes);
+                v
+            }
+            5 => vec![src.byte() | 1],
+            _ => {
+                // application data: a text string
+                let mut v = vec![0x6b];
+                v.extend(b"application");
+                v
+            }
+        };
+        let names = ["untagged-digest", "raw-digest-bytes", "31-byte-digest", "digest-plus-trailing-byte", "wrong-tag", "single-byte", "application-aad"];
+        ctx.class(&format!("malformed-declaration:{}", names[which]));
+        let fkey = format!("C08/malformed-declaration/{}", names[which]);
+        let msg = key.encrypt(e.tagged_cbor().to_cbor_data(), Some(aad.clone()), nonce.clone());
+        let element = msg.tagged_cbor().to_cbor_data();
+        let by_conversion = nopanic!(ctx, Envelope::try_from(msg).map_err(|x| x.to_string()), "malformed-declaration", &fkey);
+        let mut bytes = vec![0xd8, 0xc8];
+        bytes.extend(&element);
+        let by_decoding = nopanic!(ctx, Envelope::try_from_cbor_data(bytes).map_err(|x| x.to_string()), "malformed-declaration", &fkey);
+        // as the subject of a node, through the decoder
+        let assertion = Envelope::new_assertion("p", "o");
+        let mut nb = vec![0xd8, 0xc8, 0x82];
+        nb.extend(&element);
+        nb.extend(assertion.untagged_cbor().to_cbor_data());
+        let as_subject = nopanic!(ctx, Envelope::try_from_cbor_data(nb).map_err(|x| x.to_string()), "malformed-declaration", &fkey);
+        for (route, got) in [("conversion", by_conversion), ("decoding", by_decoding), ("decoding-as-subject", as_subject)] {
+            if let Ok(x) = got {
+                ctx.class("malformed-declaration:accepted-as-envelope");
+                let r = nopanic!(ctx, x.decrypt_subject(&key).map(|y| y.format_flat()).map_err(|z| z.to_string()), "malformed-declaration", &fkey);
+                check!(ctx, r.is_err(), "malformed-declaration", &fkey, "an encrypted element whose digest declaration is malformed ({}, accepted by {}) decrypts to an envelope bound to no digest: {:?}", names[which], route, r);
+                let _ = nopanic!(ctx, x.digest().into_owned(), "malformed-declaration", &fkey);
+                let _ = nopanic!(ctx, x.to_cbor_data(), "malformed-declaration", &fkey);
+            }
+        }
+        ctx.nontrivial = true;
     }
     // --- decrypt on something not encrypted
     if !matches!(m.subject(), M::Encrypted(..)) {
